@@ -2,10 +2,20 @@
 """prints the prompt given to a fresh sub-agent that produces HARMLESS rewrites (nothing from /verif)"""
 import json, sys
 pid = sys.argv[1]
-wt = f"/tmp/benign-{pid}"
+rnd = sys.argv[2] if len(sys.argv) > 2 else ""
+wt = f"/tmp/benign-{pid}{rnd}"
 p = next(json.loads(l) for l in open("/verif/properties.jsonl") if json.loads(l)["id"] == pid)
 mech = "; ".join(f"{m['name']} ({m['where']})" for m in p['anchors']['mechanism'])
-print(f"""You are helping to evaluate a verification tool for FALSE ALARMS. Work ONLY inside the directory {wt} — a scratch git worktree of the Python library `pdtable` (reader/writer for the StarTable tabular format: CSV, Excel, JSON; tables are pandas DataFrames with units). Do not read or write anything under /verif or /repo; do not use git commit or git stash. Run Python as `cd {wt} && PYTHONPATH={wt} /venv/bin/python ...` so that the worktree's `pdtable` is the one imported.
+KINDS1 = """  change 1 — a pure refactoring with identical behaviour: e.g. rename local variables and private helpers, extract or inline a helper function, turn a loop into a comprehension or the reverse, reorder independent statements, swap the arms of an if/else with the condition negated, replace a literal set by a frozenset or a tuple, restructure try/except without changing what is caught;
+  change 2 — a behaviour change OUTSIDE what the property talks about: e.g. reword an error or log message (unless the property is about message content — then leave the parts it mentions intact), add logging or a warning, add an optional keyword argument whose default keeps today's behaviour, add a docstring / type hints / an assertion that always holds, attach an extra private attribute, improve an unrelated code path in the same file;
+  change 3 — an internal optimisation that is CORRECT: e.g. a precomputed lookup table equal to what was computed before, a compiled regular expression equivalent to the present one, a cache that is correctly keyed and invalidated, an early exit that returns exactly what the slow path would have returned, avoiding a redundant copy where no aliasing can be observed.
+"""
+KINDS2 = """  change 1 — re-wording only: change the TEXT of error messages, warnings, log records, __repr__ / __str__ output and docstrings in this code (add detail such as names, rows, hints; fix grammar; drop stray blanks), keeping every fact the old text stated and keeping exception classes, conditions and order exactly as they are — if the property statement itself talks about what a message names, the new text must still name it;
+  change 2 — another internal representation with the same observable behaviour: e.g. a list kept as a tuple or a deque, a dict as an OrderedDict, a set as a frozenset, a hand-written class turned into a dataclass or given __slots__, a private attribute renamed or split in two, a module-level constant moved into another module and imported back, a private helper moved to another file;
+  change 3 — an equivalent algorithm: the same result computed another way (a regular expression replaced by explicit string code or the reverse, index loops versus zip / enumerate, a pandas / numpy vectorised form versus a Python loop, recursion versus iteration, itertools versus hand-written loops) — identical results and identical exceptions for every input, including empty, duplicate, missing and malformed ones.
+"""
+KINDS = KINDS2 if rnd else KINDS1
+print(f"""You are helping to evaluate a verification tool for FALSE ALARMS. Work ONLY inside the directory {wt} — a scratch git worktree of the Python library `pdtable` (reader/writer for the StarTable tabular format: CSV, Excel, JSON; tables are pandas DataFrames with units). Do not read or write anything under /verif or /repo; do not use git commit and NEVER use git stash (the stash is shared by all worktrees of the repository: use `git checkout -- pdtable` and `git apply`). Run Python as `cd {wt} && PYTHONPATH={wt} /venv/bin/python ...` so that the worktree's `pdtable` is the one imported.
 
 The library satisfies this property, and it must STILL satisfy it, for every input, after each of your changes:
 
@@ -16,12 +26,9 @@ CODE INVOLVED: {', '.join(p['anchors']['files'])}
 MECHANISM: {mech}
 
 Your task: produce THREE different changes to the library source (files under {wt}/pdtable/, never tests) of the kind a maintainer makes every week, each touching the code involved in the property above (the functions named under MECHANISM or the ones they call), each of which keeps the property TRUE for every input and keeps every currently passing test passing:
-  change 1 — a pure refactoring with identical behaviour: e.g. rename local variables and private helpers, extract or inline a helper function, turn a loop into a comprehension or the reverse, reorder independent statements, swap the arms of an if/else with the condition negated, replace a literal set by a frozenset or a tuple, restructure try/except without changing what is caught;
-  change 2 — a behaviour change OUTSIDE what the property talks about: e.g. reword an error or log message (unless the property is about message content — then leave the parts it mentions intact), add logging or a warning, add an optional keyword argument whose default keeps today's behaviour, add a docstring / type hints / an assertion that always holds, attach an extra private attribute, improve an unrelated code path in the same file;
-  change 3 — an internal optimisation that is CORRECT: e.g. a precomputed lookup table equal to what was computed before, a compiled regular expression equivalent to the present one, a cache that is correctly keyed and invalidated, an early exit that returns exactly what the slow path would have returned, avoiding a redundant copy where no aliasing can be observed.
-Be careful: the change must really be harmless with respect to the property — think about unusual inputs (empty tables, duplicate names, missing values, transposed tables, error paths, repeated calls on the same objects) before you settle on it. Sizes: 5–40 changed lines each.
+{KINDS}Be careful: the change must really be harmless with respect to the property — think about unusual inputs (empty tables, duplicate names, missing values, transposed tables, error paths, repeated calls on the same objects) before you settle on it. Sizes: 5–40 changed lines each.
 
-Before changing anything record the baseline: `cd {wt} && PYTHONPATH={wt} /venv/bin/python -m pytest -q -p no:cacheprovider --timeout=900 --continue-on-collection-errors -rA 2>&1 | grep -E "^(PASSED|FAILED|ERROR)" | sort > /tmp/benign-{pid}-base.txt` (about 163 pass); after each change the set of PASSED lines must be a superset of the baseline's.
+Before changing anything record the baseline: `cd {wt} && PYTHONPATH={wt} /venv/bin/python -m pytest -q -p no:cacheprovider --timeout=900 --continue-on-collection-errors -rA 2>&1 | grep -E "^(PASSED|FAILED|ERROR)" | sort > /tmp/benign-{pid}{rnd}-base.txt` (about 163 pass); after each change the set of PASSED lines must be a superset of the baseline's.
 
 For each change i in {{1, 2, 3}} write into {wt}/out/b{{i}}/ :
   - patch.diff : `git -C {wt} diff` of exactly that change alone (`git -C {wt} checkout -- pdtable` between changes);
